@@ -24,7 +24,7 @@ ASSUMPTIONS = ["hop-by-hop ids are unique per connection, not across connections
                "a connection is 'ready' for an answer iff its socket is open on both sides and no DPR/DPA was exchanged"]
 TIMEOUT = {"quick": 900, "thorough": 3600}
 SCTP_CLONES = {"quick": ['rand3', 'enum0'], "thorough": ['rand10', 'rand11', 'enum0', 'concurrent3']}
-FAULTS = ["none", "close", "reset", "dpr", "reconnect", "second_conn", "second_conn_before"]
+FAULTS = ["none", "close", "reset", "dpr", "reconnect", "second_conn", "second_conn_before", "second_conn_then_close"]
 
 
 def shards(tier, seed):
@@ -97,6 +97,11 @@ class Case:
             self.socks[t].append(self.connect(t, gen=len(self.socks[t])))
         elif f == "second_conn":
             self.socks[t].append(self.connect(t, gen=len(self.socks[t])))
+        elif f == "second_conn_then_close":
+            # the peer stays connected through a second connection while the one that carried the requests goes
+            self.socks[t].append(self.connect(t, gen=len(self.socks[t])))
+            h.settle()
+            p.close()
         h.settle()
         for gens in self.socks:
             for q in gens:
